@@ -355,6 +355,69 @@ func freshTypedArray(m *core.Model, f *core.Func, e ast.Expr, depth int) bool {
 		if k, cal, _ := m.Callee(x); k == core.CallStatic {
 			return calleeResultFresh(m, cal, 0, depth+1)
 		}
+	case *ast.SelectorExpr:
+		// a field of a small struct that a constructor returns (buf := newBuffer(tp, cap); buf.data): the value the
+		// constructor puts into that field
+		fld := m.FieldOf(x)
+		id, isID := ast.Unparen(x.X).(*ast.Ident)
+		if fld == nil || !isID {
+			return false
+		}
+		v, ok := m.Info.ObjectOf(id).(*types.Var)
+		if !ok || v.IsField() {
+			return false
+		}
+		defs := localDefsOf(m, f, v)
+		if len(defs) == 0 {
+			return false
+		}
+		for _, d := range defs {
+			call, isCall := ast.Unparen(d).(*ast.CallExpr)
+			if !isCall {
+				return false
+			}
+			k, cal, _ := m.Callee(call)
+			if k != core.CallStatic || cal == nil || cal.Body == nil {
+				return false
+			}
+			okAll, n := true, 0
+			core.InspectNoLits(cal.Body, func(y ast.Node) bool {
+				rs, isR := y.(*ast.ReturnStmt)
+				if !isR || len(rs.Results) != 1 {
+					return true
+				}
+				n++
+				r := ast.Unparen(rs.Results[0])
+				if rid, isRID := r.(*ast.Ident); isRID {
+					if rv, isVar := m.Info.ObjectOf(rid).(*types.Var); isVar && !rv.IsField() {
+						if ds := localDefsOf(m, cal, rv); len(ds) == 1 {
+							r = ast.Unparen(ds[0])
+						}
+					}
+				}
+				lit, isLit := r.(*ast.CompositeLit)
+				found := false
+				if isLit {
+					for _, e := range lit.Elts {
+						if kv, isKV := e.(*ast.KeyValueExpr); isKV {
+							if kid, isK := kv.Key.(*ast.Ident); isK {
+								if fo, _ := m.Info.ObjectOf(kid).(*types.Var); fo != nil && fo.Origin() == fld {
+									found = freshTypedArray(m, cal, kv.Value, depth+1)
+								}
+							}
+						}
+					}
+				}
+				if !found {
+					okAll = false
+				}
+				return true
+			})
+			if !okAll || n == 0 {
+				return false
+			}
+		}
+		return true
 	}
 	return false
 }
@@ -919,6 +982,10 @@ func elementLoop(m *core.Model, loop ast.Node) (ast.Expr, *ast.BlockStmt, bool) 
 		case *types.Slice, *types.Array:
 			return m.Inline(l.X), l.Body, true
 		}
+		// the standard iterators over all (index, element) pairs of a slice: slices.All, slices.Backward
+		if xs := stdSliceIterOver(m, l.X); xs != nil {
+			return m.Inline(xs), l.Body, true
+		}
 	}
 	if bound, body, ok := countLoop(m, loop); ok {
 		if call, ok := ast.Unparen(m.StripConv(m.Inline(m.StripConv(bound)))).(*ast.CallExpr); ok && m.IsBuiltin(call, "len") && len(call.Args) == 1 {
@@ -1088,6 +1155,115 @@ func appendOf(m *core.Model, e ast.Expr) *ast.CallExpr {
 	}
 	if cal.Sig.Params().Len() > 0 && cal.Sig.Params().At(0) == v {
 		return inner
+	}
+	return nil
+}
+
+// isGroupKey reports whether key names a field that merely groups other fields of its owner: a field of a struct
+// type (embedded or named) all of whose fields are keyed under another owner than the struct type itself (see
+// core.fieldOwners: fields regrouped into a nested struct keep the keys of the pinned data model).
+func isGroupKey(m *core.Model, key string) bool {
+	fv := m.FieldByKey(key)
+	if fv == nil {
+		return false
+	}
+	t := fv.Type()
+	if p, ok := t.(*types.Pointer); ok {
+		t = p.Elem()
+	}
+	n, ok := t.(*types.Named)
+	if !ok || n.Obj().Pkg() != m.Prog.Ecs.Types {
+		return false
+	}
+	st, ok := n.Underlying().(*types.Struct)
+	if !ok || st.NumFields() == 0 {
+		return false
+	}
+	for i := 0; i < st.NumFields(); i++ {
+		if ownerOf(m.FieldKey(st.Field(i).Origin())) == n.Obj().Name() {
+			return false
+		}
+	}
+	return true
+}
+
+func withoutGroupKeys(m *core.Model, keys []string) []string {
+	var out []string
+	for _, k := range keys {
+		if !isGroupKey(m, k) {
+			out = append(out, k)
+		}
+	}
+	return out
+}
+
+// appendThroughPointer recognises a statement `x.add(o)` whose callee is a one-statement method with a pointer
+// receiver that appends to what the receiver points to (`*l = append(*l, o)`); it returns x, the list appended to.
+func appendThroughPointer(m *core.Model, n ast.Node) ast.Expr {
+	es, ok := n.(*ast.ExprStmt)
+	if !ok {
+		return nil
+	}
+	call, ok := ast.Unparen(es.X).(*ast.CallExpr)
+	if !ok {
+		return nil
+	}
+	sel, ok := ast.Unparen(call.Fun).(*ast.SelectorExpr)
+	if !ok {
+		return nil
+	}
+	k, cal, _ := m.Callee(call)
+	if k != core.CallStatic || cal == nil || cal.Body == nil || len(cal.Body.List) != 1 || cal.Sig == nil || cal.Sig.Recv() == nil {
+		return nil
+	}
+	if _, isPtr := cal.Sig.Recv().Type().(*types.Pointer); !isPtr {
+		return nil
+	}
+	as, ok := cal.Body.List[0].(*ast.AssignStmt)
+	if !ok || len(as.Lhs) != 1 || len(as.Rhs) != 1 {
+		return nil
+	}
+	isRecvDeref := func(e ast.Expr) bool {
+		st, ok := ast.Unparen(e).(*ast.StarExpr)
+		if !ok {
+			return false
+		}
+		id := identOf(st.X)
+		return id != nil && m.Info.ObjectOf(id) == types.Object(cal.Sig.Recv())
+	}
+	inner, ok := ast.Unparen(as.Rhs[0]).(*ast.CallExpr)
+	if !ok || !m.IsBuiltin(inner, "append") || len(inner.Args) < 2 || !isRecvDeref(as.Lhs[0]) || !isRecvDeref(inner.Args[0]) {
+		return nil
+	}
+	return sel.X
+}
+
+// stdSliceIterOver: e is a call of slices.All or slices.Backward (whatever name the package is
+// imported under); it returns the slice iterated over, or nil.
+func stdSliceIterOver(m *core.Model, e ast.Expr) ast.Expr {
+	call, ok := ast.Unparen(e).(*ast.CallExpr)
+	if !ok || len(call.Args) != 1 {
+		return nil
+	}
+	fun := ast.Unparen(call.Fun)
+	if ix, isIx := fun.(*ast.IndexExpr); isIx {
+		fun = ast.Unparen(ix.X)
+	}
+	sel, ok := fun.(*ast.SelectorExpr)
+	if !ok {
+		return nil
+	}
+	id, ok := sel.X.(*ast.Ident)
+	if !ok {
+		return nil
+	}
+	pn, ok := m.Info.ObjectOf(id).(*types.PkgName)
+	if !ok || pn.Imported().Path() != "slices" {
+		return nil
+	}
+	switch sel.Sel.Name {
+	case "All", "Backward": // (index, element) pairs like a range over the slice itself; slices.Values yields elements only
+		return call.Args[0]
 	}
 	return nil
 }
